@@ -23,6 +23,7 @@ META = {
                   "condition is conservative (whole-atom term size <= max_size, #reachable atoms < overflow_depth).  Oracle "
                   "out-of-fuel (infinite ground reach sets: polymorphic recursion) is inconclusive and counted as such.",
     "design_ref": "DESIGN.md §4 C02",
+    "bins": ["solve"],
     "assumptions": [
         "semantics of the C01 fragment as formalised in coq/Logic/Sem.v (open-world placeholders; no mixed inductive/coinductive cycles: Contract.fragment_ok is evaluated per case)",
         "auto-trait rule (clauses.rs push_auto_trait_impls) mirrored by proggen.auto_clauses",
